@@ -58,6 +58,7 @@ def run(P: Program, rep: Report):
                        "comment runs attached to the following block; the input library is unchanged and not aliased")
     n = 0
     bad = {}
+    okcfg = []
     for si, seq in enumerate(SEQS):
         for order in ORDERS:
             for preserve in (True, False):
@@ -123,12 +124,15 @@ def run(P: Program, rep: Report):
                         bad.setdefault("aliased", f"the sorted library shares blocks with its input ({cfg})")
                     if after != [i[0] for i in items]:
                         bad.setdefault("input-changed", f"the input library's order changed ({cfg})")
+                    if [g[0] for g in got] == want and equal and not alias:
+                        okcfg.append((cfg, want))
     rep.count("sort_configurations", n)
     rep.require_count("C16.R1", "sort configurations", n, 50)
     for k, msg in sorted(bad.items()):
         rep.fail("C16.R1", f"sort:{k}", cls.loc, msg)
     if not bad:
-        rep.ok("C16.R1", f"sort:{n}-configurations", cls.loc)
+        for cfg, want in okcfg:
+            rep.ok("C16.R1", f"sort:{cfg}", cls.loc, f"-> {want}", nontrivial=len(want) > 1)
 
     rep.rule("C16.R2", "the constructor rejects non-Block types in the order")
     def two(ctx):
